@@ -60,6 +60,22 @@ fn value_gen(rng: &mut Rng, scale: f32, one_signed: bool, constant: Option<f32>)
     }
 }
 
+/// the bit pattern of a float 1..3 representable values away from the given one (itself if that
+/// would leave the normal range; zero moves to a tiny value)
+fn ulp_neighbour(rng: &mut Rng, bits: i64) -> i64 {
+    let x = f32::from_bits(bits as u32);
+    if x == 0.0 {
+        return fb(*rng.pick(&[1e-8f32, -1e-8, 1e-20]));
+    }
+    let k = rng.range(1, 3) as u32;
+    let b = if rng.chance(0.5) { (bits as u32).wrapping_add(k) } else { (bits as u32).wrapping_sub(k) };
+    if f32::from_bits(b).is_normal() {
+        b as i64
+    } else {
+        bits
+    }
+}
+
 fn fault_rate(rng: &mut Rng, structural: bool) -> f64 {
     if structural {
         *rng.pick(&[0.1, 0.25, 0.4, 0.6])
@@ -212,7 +228,10 @@ pub fn gen_node(prop: &str, kind: &str, profile: u8, tier: Tier, rng: &mut Rng, 
             match rng.below(8) {
                 0 | 1 => plan.push("SET", &[cur_cmd.0, cur_cmd.1]),
                 2 => {
-                    cur_cmd = (cur_cmd.0, fb(rng.moderate_f32()));
+                    // a different value of the same kind: usually unrelated, sometimes the neighbouring
+                    // float (a command 1..3 ulps away is a different command)
+                    let v = if rng.chance(0.3) { ulp_neighbour(rng, cur_cmd.1) } else { fb(rng.moderate_f32()) };
+                    cur_cmd = (cur_cmd.0, v);
                     plan.push("SET", &[cur_cmd.0, cur_cmd.1]);
                 }
                 3 => {
@@ -229,7 +248,13 @@ pub fn gen_node(prop: &str, kind: &str, profile: u8, tier: Tier, rng: &mut Rng, 
                     }
                 }
                 5 => {
-                    let c = if rng.chance(0.5) { cur_cmd } else { (rng.below(3) as i64, fb(rng.moderate_f32())) };
+                    let c = if rng.chance(0.5) {
+                        cur_cmd
+                    } else if rng.chance(0.25) {
+                        (cur_cmd.0, ulp_neighbour(rng, cur_cmd.1))
+                    } else {
+                        (rng.below(3) as i64, fb(rng.moderate_f32()))
+                    };
                     plan.push("FS", &[tg.t, c.0, c.1]);
                     if following {
                         cur_cmd = c;
